@@ -82,6 +82,10 @@ MUT["C10"] = [
 ]
 
 MUT["C12"] = [
+    dict(id="c12-init-xn-zero", what="constructor starts with one phantom record", path=P_FL, functions=[FL + ".__init__"],
+         old="        self.Xn: int = -1  # Last filled entry", new="        self.Xn: int = 0  # Last filled entry", expect="log_well_formed_and_empty"),
+    dict(id="c12-init-short-flags", what="flag vector shorter than the log", path=P_FL, functions=[FL + ".__init__"],
+         old="        self.X_flag = np.full((cache_size,), False, dtype=bool)", new="        self.X_flag = np.full((cache_size - 1,), False, dtype=bool)", expect="log_well_formed_and_empty"),
     dict(id="c12-zero-filled-growth", what="one log array grows with zeros instead of NaN (as in the seeded change)", path=P_FL, functions=[FL + "._expand_arrays"],
          old="        self.X = np.append(\n            self.X, np.full([resize_amount, self.D], np.nan), axis=0\n        )",
          new="        self.X = np.pad(self.X, ((0, resize_amount), (0, 0)))", expect="scan::logger::new_log_rows_are_filled_with_nan"),
@@ -254,6 +258,12 @@ P_HEDGE = "pybads/search/search_hedge.py"
 ESQ = "pybads.search.es_search.ESSearch.__call__"
 HQ = "pybads.search.search_hedge.ESSearchHedge.__call__"
 MUT["C18"] = [
+    dict(id="c18-lb-search-below", what="lower search bound moved the wrong way", path=P_BADS, functions=[B + "._update_search_bounds_"],
+         old="            lb_search[lb_search < lb] + self.optim_state[\"search_mesh_size\"]", new="            lb_search[lb_search < lb] - self.optim_state[\"search_mesh_size\"]", expect="search_box_inside_hard_box"),
+    dict(id="c18-ub-search-above", what="upper search bound not pulled back inside", path=P_BADS, functions=[B + "._update_search_bounds_"],
+         old="        ub_search[ub_search > ub] = (\n            ub_search[ub_search > ub] - self.optim_state[\"search_mesh_size\"]\n        )", new="        pass", expect="search_box_inside_hard_box"),
+    dict(id="c18-double-step", what="upper bound moved back by five mesh steps (box can become empty)", path=P_BADS, functions=[B + "._update_search_bounds_"],
+         old="            ub_search[ub_search > ub] - self.optim_state[\"search_mesh_size\"]", new="            ub_search[ub_search > ub] - 5 * self.optim_state[\"search_mesh_size\"]", expect="search_box_nonempty"),
     dict(id="c18-return-last", what="the worst kept candidate is proposed", path=P_ES, functions=[ESQ], old="        return us[0], z[0]", new="        return us[-1], z[-1]", expect="proposal_has_lowest_acquisition"),
     dict(id="c18-sort-desc", what="candidates ordered by descending acquisition", path=P_ES, functions=[ESQ], old="            z_idx = np.argsort(z_candidates)", new="            z_idx = np.argsort(-z_candidates)", expect="c18_kept_sorted_prefix"),
     dict(id="c18-clobber", what="fallback overwrites the accumulated acquisition values (the repaired defect)", path=P_ES, functions=[ESQ],
@@ -457,10 +467,10 @@ PROPS = {
         level="proof",
         native=[dict(name='logger-reference-model', script='logger_model.py', args_quick=['--histories', 150], args_thorough=['--histories', 3000], timeout=1800)],
         replay=dict(script='logger_model.py', args=['--histories', 1500], timeout=1800),
-        functions=[FL + "._expand_arrays", FL + "._record", FL + ".__call__"],
+        functions=[FL + ".__init__", FL + "._expand_arrays", FL + "._record", FL + ".__call__"],
         scans=[lambda index, registry: scans.log_rows_filled_with_nan(index, registry)],
         mutants=MUT["C12"],
-        explanation="Data-structure contracts on the log: well-formedness invariant (equal lengths, X_flag[i] <=> i <= Xn, count), new-record clause over the whole view "
+        explanation="Data-structure contracts on the log: well-formedness invariant (equal lengths, X_flag[i] <=> i <= Xn, count) established by the constructor and kept by every method, new-record clause over the whole view "
                     "(new row holds (x_orig, x, value), every earlier row of every array unchanged), no-record clause (arrays unchanged), growth clause (prefix preserved, growth >= 1). "
                     "The assumed clause nan_tail (unused rows never equal a point; NaN is not modelled for the log) is backed by a syntactic obligation: every allocation / growth of "
                     "X, X_orig, Y, Y_orig, S fills the new rows with NaN.",
@@ -546,12 +556,13 @@ PROPS = {
         native=[dict(name="es-search-bounded", script="es_model.py", args_quick=["--runs", 150, "--mask", 48], args_thorough=["--runs", 1500, "--mask", 300], timeout=1800),
                 panel('C18', 6, 30)],
         replay=replay('C18', 30),
-        functions=[ESQ, HQ, B + "._search_step_"],
+        functions=[ESQ, HQ, B + "._search_step_", B + "._update_search_bounds_"],
         mutants=MUT["C18"],
         explanation="ESSearch.__call__ (both strategies share it): loop invariant over the ES generations - accumulated candidates and acquisition values have equal length, every candidate "
                     "is inside [lb_search, ub_search] (postcondition of the real candidate filter), z_candidates[k] is the acquisition value of us_candidates[k], and the kept prefix starts with a "
                     "least element (argsort axioms); at the return: the proposal is one of the surviving candidates, carries its acquisition value, and no surviving candidate has a lower one. "
                     "ESSearchHedge.__call__: probabilities sum to 1 and each is >= gamma (Sum as a linear functional, exp > 0). _search_step_: at most one target evaluation. "
+                    "_update_search_bounds_: the mesh-rounded box lies inside the hard box and is not empty (finite bounds containing the unit plausible box, mesh <= 1). "
                     "Candidate generation (random draws, covariance, reproduction) is havoc - irrelevant to the clauses. BOUNDED: the rank-selection mask for every (mu, lambda) <= 48 / 300; "
                     "random ES searches on the real classes with recorded candidate sets; panel monitor on full runs.",
     ),
